@@ -35,8 +35,32 @@ def make_pki(ctx):
         _openssl(['x509', '-req', '-in', cn + '.csr', '-CA', 'ca.pem', '-CAkey', 'ca.key', '-CAcreateserial', '-out', cn + '.crt', '-days', '3'], d)
         pki['cert_' + cn] = rd(cn + '.crt')
     pki['cert_general'] = pki['cert']
+    # client certificates for relaying by certificate (control/clientca.pem + control/tlsclients):
+    # name -> subject; 'cc_otherca' carries a listed name but is signed by the server CA, not the client CA
+    _openssl(['req', '-x509', '-newkey', 'rsa:2048', '-nodes', '-keyout', 'clientca.key', '-out', 'clientca.pem', '-subj', '/CN=C01 client CA', '-days', '3'], d)
+    pki['clientca'] = rd('clientca.pem')
+    _openssl(['genrsa', '-out', 'client.key', '2048'], d)
+    for name, subj, ca in CLIENT_CERTS:
+        _openssl(['req', '-new', '-key', 'client.key', '-out', name + '.csr', '-subj', subj], d)
+        _openssl(['x509', '-req', '-in', name + '.csr', '-CA', ca + '.pem', '-CAkey', ca + '.key', '-CAcreateserial', '-out', name + '.crt', '-days', '3'], d)
     return pki
 
+
+# client certificates: (file name, subject, signing CA); the name the server looks up in control/tlsclients is
+# the emailAddress if there is one, else the CN
+CLIENT_CERTS = [
+    ('cc_email', '/CN=Some One/emailAddress=relay@partner.example', 'clientca'),
+    ('cc_cn', '/CN=mx.partner.example', 'clientca'),
+    ('cc_prefix', '/CN=mx.partner.exam', 'clientca'),
+    ('cc_longer', '/CN=mx.partner.example.attacker.test', 'clientca'),
+    ('cc_upper', '/CN=MX.PARTNER.EXAMPLE', 'clientca'),
+    ('cc_emailprefix', '/CN=x/emailAddress=relay@partner.exa', 'clientca'),
+    ('cc_cn_listed_email_not', '/CN=mx.partner.example/emailAddress=nobody@elsewhere.example', 'clientca'),
+    ('cc_otherca', '/CN=mx.partner.example', 'ca'),
+]
+CLIENT_NAME = {'cc_email': b'relay@partner.example', 'cc_cn': b'mx.partner.example', 'cc_prefix': b'mx.partner.exam',
+               'cc_longer': b'mx.partner.example.attacker.test', 'cc_upper': b'MX.PARTNER.EXAMPLE', 'cc_emailprefix': b'relay@partner.exa',
+               'cc_cn_listed_email_not': b'nobody@elsewhere.example', 'cc_otherca': b'mx.partner.example'}
 
 # ------------------------------------------------------------------------------------------------
 # cases
@@ -80,26 +104,29 @@ class Case:
     'o' (complete the handshake), 'g<n>' (the next clear item is sent instead of a ClientHello: OpenSSL
     takes n bytes of it; plain 'g' = 5, the record header), 'c' (close), 't' (stay silent)"""
 
-    def __init__(self, mode, cert='u', port='25', clear=(), tls=(), hs=(), eat=5, tag='', clean=True, localip=None, files=None):
+    def __init__(self, mode, cert='u', port='25', clear=(), tls=(), hs=(), eat=5, tag='', clean=True, localip=None, files=None, ccert=None, tlsclients=None):
         self.mode, self.cert, self.port = mode, cert, port
         self.clear, self.tls, self.hs, self.eat = list(clear), list(tls), list(hs), eat
         self.tag, self.clean = tag, clean
         # certificate name scenarios (cert == 'files'): TCP6LOCALIP text and the files under control/
         # as {name: 'cert+key' | 'cert' | 'key' | 'wrongkey'}; port None = TCPLOCALPORT not set
         self.localip, self.files = localip, files
+        # relaying by client certificate: the certificate the client presents (a CLIENT_CERTS name) when asked
+        # in a TLS 1.2 renegotiation, and the lines of control/tlsclients (control/clientca.pem is then present)
+        self.ccert, self.tlsclients = ccert, tlsclients
 
     def dumps(self):
         enc = lambda its: [it[1].hex() if it[0] == 'S' else 'W' for it in its]
         return json.dumps({'mode': self.mode, 'cert': self.cert, 'port': self.port, 'clear': enc(self.clear), 'tls': enc(self.tls),
                            'hs': self.hs, 'eat': self.eat, 'tag': self.tag, 'clean': self.clean,
-                           'localip': self.localip, 'files': self.files}, separators=(',', ':'))
+                           'localip': self.localip, 'files': self.files, 'ccert': self.ccert, 'tlsclients': self.tlsclients}, separators=(',', ':'))
 
     @staticmethod
     def loads(s):
         d = json.loads(s)
         dec = lambda its: [('W',) if x == 'W' else ('S', bytes.fromhex(x)) for x in its]
         return Case(d['mode'], d['cert'], d['port'], dec(d['clear']), dec(d['tls']), d['hs'], d.get('eat', 5), d.get('tag', ''), d.get('clean', True),
-                    d.get('localip'), d.get('files'))
+                    d.get('localip'), d.get('files'), d.get('ccert'), d.get('tlsclients'))
 
 
 def local_ip_text(case):
@@ -147,7 +174,11 @@ def _scenario_for(pki, case):
         sc.qq = ['all all 0'] * 4
         sc.items = list(case.clear)
         return sc
-    sc = smtpworld.base_scenario(port=case.port, extra_control=control_for(pki, case.cert, case.port))
+    ctl = control_for(pki, case.cert, case.port)
+    if case.tlsclients is not None:
+        ctl['clientca.pem'] = pki['clientca']
+        ctl['tlsclients'] = ''.join(x + '\n' for x in case.tlsclients).encode()
+    sc = smtpworld.base_scenario(port=case.port, extra_control=ctl)
     sc.localip = LOCALIP
     sc.qq = ['all all 0'] * 4
     sc.items = list(case.clear)
@@ -418,6 +449,7 @@ class TlsClient:
             try:
                 return self.tls.read(65536)
             except ssl.SSLWantReadError:
+                self._pump()                       # handshake records of a renegotiation
                 d = self._recv(timeout)
                 if d is None:
                     return None
@@ -426,8 +458,9 @@ class TlsClient:
                 self.inb.write(d)
             except (ssl.SSLZeroReturnError, ssl.SSLEOFError):
                 return b''
-            except ssl.SSLError:
+            except ssl.SSLError as e:
                 self.obs.append('R/c/000/0')       # bytes that are not TLS records after the handshake
+                self.sslerr = repr(e)
                 return b''
 
     def _note(self, got):
@@ -479,6 +512,12 @@ class TlsClient:
         cctx = ssl.SSLContext(ssl.PROTOCOL_TLS_CLIENT)
         cctx.load_verify_locations(self.pki['ca'])
         cctx.check_hostname = False
+        if self.case.ccert:
+            # the server asks for the certificate in a renegotiation (TLS 1.2; with TLS 1.3 it would be
+            # post-handshake authentication)
+            cctx.load_cert_chain(os.path.join(self.pki['dir'], self.case.ccert + '.crt'), os.path.join(self.pki['dir'], 'client.key'))
+            cctx.maximum_version = ssl.TLSVersion.TLSv1_2
+            cctx.options &= ~ssl.OP_NO_RENEGOTIATION      # Python switches server-initiated renegotiation off by default
         self.inb, self.outb = ssl.MemoryBIO(), ssl.MemoryBIO()
         so = cctx.wrap_bio(self.inb, self.outb)
         ok = False
@@ -600,7 +639,7 @@ def run_tls_sessions(ctx, binary, pki, cases, keep=False, workers=None):
             p.kill(); stderr, rc = 'timeout', -14
         res = session.Result(d, rc, stderr)
         out = {'replies': cl.replies, 'obs': cl.obs + [t_obs(t) for t in res.states] + (['F'] if res.fault else []), 'states': res.states, 'exit': res.exit, 'peer_cn': cl.peer_cn,
-               'handoffs': [e.hex() for _, e in res.handoffs], 'msgs': [m for m, _ in res.handoffs], 'fault': res.fault, 'clienterr': err, 'rc': rc}
+               'handoffs': [e.hex() for _, e in res.handoffs], 'msgs': [m for m, _ in res.handoffs], 'fault': res.fault, 'clienterr': err, 'rc': rc, 'sslerr': getattr(cl, 'sslerr', None)}
         if not keep:
             shutil.rmtree(d, ignore_errors=True)
         return out
